@@ -202,9 +202,8 @@ func (a *application) terminate(pid gen.PID, reason error) {
 
 	switch a.mode {
 	case gen.ApplicationModePermanent:
-		state := atomic.SwapInt32(&a.state, int32(gen.ApplicationStateStopping))
-		if state == int32(gen.ApplicationStateStopping) {
-			// already in stopping
+		if atomic.CompareAndSwapInt32(&a.state, int32(gen.ApplicationStateRunning), int32(gen.ApplicationStateStopping)) == false {
+			// already in stopping (or already stopped by the member that left last)
 			break
 		}
 		a.node.Log().Info("application %s (%s) will be stopped due to termination of %s with reason: %s", a.spec.Name, a.mode, pid, reason)
@@ -218,13 +217,11 @@ func (a *application) terminate(pid gen.PID, reason error) {
 			// do nothing
 			break
 		}
-		a.node.Log().Info("application %s (%s) will be stopped due to termination of %s with reason: %s", a.spec.Name, a.mode, pid, reason)
-
-		state := atomic.SwapInt32(&a.state, int32(gen.ApplicationStateStopping))
-		if state == int32(gen.ApplicationStateStopping) {
-			// already in stopping
+		if atomic.CompareAndSwapInt32(&a.state, int32(gen.ApplicationStateRunning), int32(gen.ApplicationStateStopping)) == false {
+			// already in stopping (or already stopped by the member that left last)
 			break
 		}
+		a.node.Log().Info("application %s (%s) will be stopped due to termination of %s with reason: %s", a.spec.Name, a.mode, pid, reason)
 		a.reason = reason
 		a.group.Range(func(pid gen.PID, _ bool) bool {
 			a.node.SendExit(pid, gen.TerminateReasonShutdown)
